@@ -118,7 +118,7 @@ Proof. exact at_most_one_piece_after_stop. Qed.
 Print Assumptions C04_at_most_one_piece_after_stop.
 
 (* UNBOUNDED, "an exception only for the right reason": whatever a call raises is the exception the user's callback
-   raised (-1), the content error of a verification (1000, verification only), an exception carried by an item of
+   raised (-1, only with a callback that raises), the content error of a verification (1000, verification only), an exception carried by an item of
    the content, the read error the content iterator raised, or the read error of the out-of-memory handler
    (ENOMEM = 12) -- under every schedule, hasher count, callback plan and clock.  The collector's internal
    assertion (-2) is not among them: it is unreachable.  [just] is defined in proofs/ExceptionProofs.v. *)
@@ -165,12 +165,21 @@ Theorem C04_generate_without_callback_never_false : forall c,
 Proof. exact generate_without_callback_never_false. Qed.
 Print Assumptions C04_generate_without_callback_never_false.
 
-(* hashing readable content without a callback raises nothing but an error of the reader (iterator failure, ENOMEM) *)
+(* hashing readable content without a callback raises nothing but an error of the reader (an iterator failure that is in the
+   content's event list, or ENOMEM when that list has an out-of-memory event) *)
 Theorem C04_generate_raises_only_reader_errors : forall c s e hs,
   reach c s -> cf_verify c = None -> cf_plan c = CbAbsent -> yielded (cf_items c) = map RPiece hs ->
-  s_result s = Some (ResRaise e) -> e = -1 \/ okr c e.
+  s_result s = Some (ResRaise e) -> okr c e.
 Proof. exact generate_raises_only_reader_errors. Qed.
 Print Assumptions C04_generate_raises_only_reader_errors.
+
+(* "if the progress callback asks to stop ... the run still returns": a cancelling callback never makes a hashing run over
+   readable content (no out-of-memory event, no iterator failure) raise -- the call returns a verdict *)
+Theorem C04_cancelled_generate_never_raises : forall c s e hs k,
+  reach c s -> cf_verify c = None -> cf_plan c = CbCancelFrom k -> cf_items c = map RPiece hs ->
+  s_result s = Some (ResRaise e) -> False.
+Proof. exact cancelled_generate_never_raises. Qed.
+Print Assumptions C04_cancelled_generate_never_raises.
 
 (* non-vacuity: the iterator fails with error 5 after two pieces: the call raises 5, and 5 is an iterator failure of the content *)
 Example C04_exception_example :
